@@ -479,10 +479,16 @@ pub fn strftime(ts: time::OffsetDateTime, fmt: &str) -> Result<String, DateForma
                             width = pad_width,
                         );
                     } else {
+                        // the sign is the offset's, not the hour component's
+                        // (-00:30 has a zero hour)
                         w!(
                             output,
-                            "{: >+width$}",
-                            offset.whole_hours(),
+                            "{: >width$}",
+                            format!(
+                                "{}{}",
+                                if offset.is_negative() { '-' } else { '+' },
+                                offset.whole_hours().abs()
+                            ),
                             width = pad_width
                         );
                     }
